@@ -31,6 +31,7 @@ REGISTRY = {
     "C20": ("p_datasourcing", "C20"),
     # extensions of the specification beyond the listed properties (DESIGN.md section 13)
     "X01": ("p_resamplingactor", "X01"),
+    "X02": ("p_powerpath", "X02"),
     "X03": ("p_componentstatus", "X03"),
     "X05": ("p_apalache", "X05"),
 }
